@@ -14,7 +14,7 @@ def run(ctx):
     quick = ctx.tier == "quick"
     ctx.build_harness()
     ctx.tlc_must_pass("MC_Renderer", "MC_Renderer_q", timeout=3000)
-    r = rendcheck.run_rend_traces(ctx, ["arcs", "ellipses", "reuse"], 600 if quick else 12000)
+    r = rendcheck.run_rend_traces(ctx, ["arcs", "ellipses", "reuse"], 600 if quick else 30000)
     for d in r["diags"]:
         if rendcheck.classify(d) == "arc":
             c = d.get("ev", {}).get("call", {})
